@@ -309,6 +309,17 @@ structure Schema where
   tlvs : List TlvField
   deriving DecidableEq, Repr
 
+/-- field layout of a hand-written codec as extracted from its Rust impls by tools/gen_msg_schemas.py (compared with the
+    hand-written schemas of Model/MsgSchemasHand.lean by Props/C13 `hand_schemas_match_source`): fixed field types in
+    order, TLVs (type, payload type), ends with `read_to_end` excess data, index of the u8 field whose low bit is checked -/
+structure HandLayout where
+  name : String
+  fixed : List FieldTy
+  tlvs : List (Nat × FieldTy)
+  tail : Bool
+  lowBit : Option Nat
+  deriving DecidableEq, Repr
+
 /-- a message value: one value per fixed field, one optional value per declared TLV -/
 structure MsgVal where
   fixed : List Val
